@@ -8,7 +8,7 @@ check("C08", "model_checking",
       "and the printed cells validated by TLC (a change without `&` on the argument is rejected).",
       "Trusted: TLC, the rule R in spec/Mutability.tla and the machine in spec/CallEffects.tla (property text, errors.md "
       "E530-E533/E513, features.md Views / Reference pointers), the renderers, lli. Shapes are representatives over i32; "
-      "pointers stored inside views are unconstrained (spec/UNCONSTRAINED-types.md). Cells are crossed with 9 statement contexts and 7 expression contexts (address-of arguments), the callees of the call family place their statement in every statement context. Extern callees (`[]T` / `&[]T` of extern functions) are part of the cells (ctx argxp) and of the call family. Quick 6 933 cells + 1 700 programs "
+      "pointers stored inside views are unconstrained (spec/UNCONSTRAINED-types.md). Cells are crossed with 9 statement contexts and 7 expression contexts (address-of arguments), the callees of the call family place their statement in every statement context. Extern callees (`[]T` / `&[]T` of extern functions) are part of the cells (ctx argxp) and of the call family. Whole-aggregate copies are also placed next to a call evaluated earlier in the same statement. Quick 7 245 cells + 1 711 programs "
       "(851 executed).",
       "TLA+ specs (Mutability.tla, Autoderef.tla, CallEffects.tla) + TLC, replay of every cell, execution + TLC trace validation of the call family",
       "DESIGN.md section 5 C08")
